@@ -43,6 +43,8 @@ def drive_and_validate(rep, w, tier, pid, replay=None):
     behs = []
     if not replay:
         _, raw = C.tlc_simulate(w, "Sim_Cache_MC.tla", "Sim_Cache.cfg", num=(60 if thorough else 12), depth=41, sd=sd, timeout=900)
+        _, raw2 = C.tlc_simulate(w, "Sim_Cache_MC.tla", "Sim_Cache_ring.cfg", num=(1500 if thorough else 300), depth=15, sd=sd, timeout=900)
+        raw = raw + raw2
         seen = set()
         for b in raw:
             k = json.dumps(b["ops"][:-1])
